@@ -523,9 +523,122 @@ def rule_index_use(ctx, m):
            'data[name] = val; setattr(traj, k, v)' if ok else 'read values are assigned under a different name')
 
 
+# ---------------------------------------------------------------- R1d ----
+def _base_name(e):
+    """X for `X.species`, `X.species or []`, `X.groups[..][..]`, ..."""
+    if isinstance(e, ast.BoolOp):
+        e = e.values[0]
+    while isinstance(e, (ast.Subscript, ast.Attribute)):
+        if isinstance(e, ast.Attribute) and isinstance(e.value, ast.Name):
+            return e.value.id, e.attr
+        e = e.value
+    return None, None
+
+
+def rule_same_file(ctx, m):
+    """the species list handed to the writer / reader belongs to the very file
+    object whose variable is written / read"""
+    for caller_q, callee, sp_pos in (('TrajectoryStore._write_data', '_write_to_nc_var', 5),
+                                     ('TrajectoryStore._load_trajectory', '_read_from_nc_var', 4)):
+        fi = m.func(caller_q)
+        calls = [c for c in calls_in(fi.node) if call_name(c).endswith(callee)]
+        ctx.floor(f'C03-R1d/{callee}', len(calls), 1, f'call of {callee}')
+        for c in calls:
+            sp = c.args[sp_pos] if len(c.args) > sp_pos else kwarg(c, 'species')
+            var = c.args[0]
+            # species side
+            spx = sp
+            if isinstance(spx, ast.Name):
+                d = single_def_value(fi.node, spx.id)
+                spx = d if d is not None else spx
+            sb, sattr = _base_name(spx) if spx is not None else (None, None)
+            # variable side: var <- group.variables[...] ; group <- X.groups[...]
+            vx = var
+            if isinstance(vx, ast.Name):
+                d = single_def_value(fi.node, vx.id)
+                vx = d if d is not None else vx
+            gb, _ = _base_name(vx)
+            if gb is not None:
+                gd = single_def_value(fi.node, gb)
+                if gd is not None:
+                    gb2, gattr = _base_name(gd)
+                    if gattr == 'groups':
+                        gb = gb2
+            ok = sb is not None and sattr == 'species' and sb == gb
+            ctx.ob('C03-R1d', fi, f'{callee}: variable from `{gb}`, species list `{norm(sp)[:50]}`', ok,
+                   'species positions come from the file object that owns the variable' if ok else
+                   (f'the species list passed to {callee} is `{norm(spx)[:70]}`, not the `.species` of `{gb}`, the file '
+                    'that owns the variable: in a store split over base and associated files the two lists differ '
+                    '(after reopening) and species values are written to / read from the wrong slots or dropped'),
+                   line=c.lineno)
+
+
+# ---------------------------------------------------------------- R7 -----
+def rule_accumulators(ctx, m):
+    """lost accumulation: a container initialised empty before a loop, used after
+    it, but *rebound* inside the loop by an expression that does not mention it"""
+    n = 0
+    for fi in m.functions.values():
+        for lp in [x for x in walk_no_nested(fi.node) if isinstance(x, ast.For)]:
+            blk = getattr(lp, '_parent', None)
+            for t, st, how in stores_to(lp):
+                if not (isinstance(t, ast.Name) and how in ('assign', 'ann')):
+                    continue
+                name = t.id
+                if any(isinstance(x, ast.Name) and x.id == name for x in ast.walk(st.value)):
+                    continue
+                inits = [s for tt, s, h in stores_to(fi.node) if isinstance(tt, ast.Name) and tt.id == name
+                         and s.lineno < lp.lineno and h in ('assign', 'ann') and _is_empty_container(getattr(s, 'value', None))
+                         and not any(a is lp for a in ancestors(s))]
+                if not inits:
+                    continue
+                init = inits[-1]
+                # init and loop in the same block (or loop nested right under it), accumulator used after the loop
+                used_after = any(isinstance(x, ast.Name) and x.id == name and isinstance(x.ctx, ast.Load)
+                                 and x.lineno > (lp.end_lineno or lp.lineno) for x in walk_no_nested(fi.node))
+                # the rebinding must depend on the loop (otherwise it is just a reset)
+                loopvars = {x.id for x in ast.walk(lp.target) if isinstance(x, ast.Name)}
+                inner_defs = {tt.id for tt, s2, h2 in stores_to(lp) if isinstance(tt, ast.Name)}
+                depends = any(isinstance(x, ast.Name) and x.id in (loopvars | inner_defs) for x in ast.walk(st.value))
+                # a reset at the top of an *inner* per-item block followed by accumulation in a deeper loop is fine
+                nested_accum = any(isinstance(x, ast.Call) and isinstance(x.func, ast.Attribute) and norm(x.func.value) == name
+                                   and x.func.attr in ('update', 'add', 'append', 'extend') and x.lineno > st.lineno
+                                   for x in ast.walk(lp)) and False
+                if used_after and depends and init.lineno < lp.lineno:
+                    n += 1
+                    ctx.ob('C03-R7', fi, f'`{name}` initialised empty (line {init.lineno}) then rebound in loop: {norm(st)[:60]}',
+                           False, (f'`{name}` is meant to accumulate over `for {norm(lp.target)} in {norm(lp.iter)}` but is '
+                                   'overwritten on every iteration: only the last iteration contributes (species of earlier '
+                                   'field sets are missing from the file and silently not written)'), line=st.lineno)
+    ctx.ob('C03-R7', (m.relpath, '<module>'), f'{len(m.functions)} functions scanned for lost accumulations', True,
+           f'{n} found', nontrivial=False)
+    ctl = ast.parse('def f(xs):\n s = set()\n for x in xs:\n  s = {y for y in x}\n return s')
+    f = ctl.body[0]
+    for a in ast.walk(f):
+        for ch in ast.iter_child_nodes(a):
+            ch._parent = a
+    lp = f.body[1]
+    hit = any(isinstance(t, ast.Name) and t.id == 's' for t, st, how in stores_to(lp))
+    ctx.control('C03-R7', hit and _is_empty_container(f.body[0].value), 'embedded lost-accumulation example is recognised')
+
+
+def _is_empty_container(v):
+    if v is None:
+        return False
+    if isinstance(v, (ast.List, ast.Set, ast.Tuple)) and not v.elts:
+        return True
+    if isinstance(v, ast.Dict) and not v.keys:
+        return True
+    if isinstance(v, ast.Call) and call_name(v) in ('set', 'list', 'dict') and not v.args:
+        return True
+    return False
+
+
 def run(ctx):
     m = ctx.prog.module(STORE)
     rule_axis(ctx, m)
+    rule_same_file(ctx, m)
+    rule_accumulators(ctx, m)
     legal = legal_combinations(ctx, ctx.prog)
     ctx.stats['legal_dimension_combinations'] = [
         ''.join(k[0] for k, v in c.items() if v) or 'scalar' for c in legal]
